@@ -303,6 +303,26 @@ Definition vm_silent (sf : surface) (o : vop) : bool :=
   | _, _ => false
   end.
 
+(* the specification of a surface operation: operands that name no buffer are errors (or the
+   surface's documented no-ops) that change nothing; an allocation may be refused by the heap limit
+   (OutOfMemory, nothing changes); everything else is the raw operation of the map of arrays *)
+Definition vspec_step (sf : surface) (sp : spec) (o : vop) (hint : mres) : spec * mres :=
+  match vop_raw o with
+  | Some m =>
+      match m, hint with
+      | MAlloc _, RErr EOutOfMemory => (sp, hint)
+      | _, _ => spec_step sp m hint
+      end
+  | None => (sp, if vm_silent sf o then ROkUnit else match hint with RErr e => RErr e | _ => RPanic end)
+  end.
+
+Fixpoint vspec_run (sf : surface) (sp : spec) (os : list (N * vop)) (hints : list mres) : spec * list mres :=
+  match os, hints with
+  | (_, o) :: r, x :: xs =>
+      let '(sp1, y) := vspec_step sf sp o x in let '(sp2, ys) := vspec_run sf sp1 r xs in (sp2, y :: ys)
+  | _, _ => (sp, [])
+  end.
+
 Fixpoint vm_run (sf : surface) (maxh : N) (s : mheap) (os : list (N * vop)) : mheap * list mres :=
   match os with
   | [] => (s, [])
